@@ -66,7 +66,8 @@ def setup_worker():
 def scheme_strategy():
     # B[5] != T[5] matters for sub-problem projection: free schemes produce it about 8 times out of 9
     return st.one_of(gen.free_schemes(), gen.free_schemes(), gen.tie_averse_schemes(), gen.tie_averse_schemes(),
-                     gen.tie_averse_schemes(), gen.preset_multiples(), gen.near_presets(), gen.decimal_schemes())
+                     gen.tie_averse_schemes(), gen.preset_multiples(), gen.near_presets(), gen.decimal_schemes(),
+                     gen.scaled_schemes(), gen.scaled_schemes())
 
 
 @st.composite
